@@ -18,11 +18,22 @@ package container
 // the scheduler therefore never sees a container it just locked as Queued
 // again (and starts it twice), nor one it just unlocked as still Locked.
 
-// addEnt adds (or declines to add) the entry for uuid only.  It calls the
-// instance type chooser, which is configuration supplied code.
-//@ func Queue.addEnt trusted
+// addEnt adds (or declines to add) the entry for uuid only.  A container that
+// is Queued or Locked and for which the instance type chooser reports an error
+// is never added (it is cancelled with an error message instead): the
+// scheduler must not see it with a made-up (zero) instance type.  An added
+// entry carries the chosen type.
+//@ func Queue.addEnt property C14,C16
+//@   requires cq.current != nil
 //@   modifies map[string]QueueEnt
+//@   ghost cerr error = nil
+//@   ghost cit arvados.InstanceType = nil
+//@   calls cq.chooseType#1: pure
+//@   calls cq.chooseType#1: set cerr = $r1
+//@   calls cq.chooseType#1: set cit = $r0
 //@   ensures forall u string :: u != uuid ==> has(cq.current, u) == old(has(cq.current, u)) && cq.current[u] == old(cq.current[u])
+//@   ensures cerr != nil && (ctr.State == arvados.ContainerStateQueued || ctr.State == arvados.ContainerStateLocked) ==> has(cq.current, uuid) == old(has(cq.current, uuid)) && cq.current[uuid] == old(cq.current[uuid])
+//@   ensures !(cerr != nil && (ctr.State == arvados.ContainerStateQueued || ctr.State == arvados.ContainerStateLocked)) ==> has(cq.current, uuid) && cq.current[uuid].InstanceType == cit && cq.current[uuid].Container == ctr
 //@ func Queue.notify trusted
 //@   modifies nothing
 // poll talks to the API server without holding the lock: anything may happen
